@@ -47,6 +47,8 @@ pub enum Command {
     ShowServerRole,
     SetPrimaryReads,
     ShowPrimaryReads,
+    /// `SET SHARDING KEY TO` with digits that are not a bigint.
+    InvalidShardingKey,
 }
 
 #[derive(PartialEq, Debug)]
@@ -290,21 +292,28 @@ impl QueryRouter {
                 true => String::from("on"),
                 false => String::from("off"),
             },
+
+            // Never matched by a regex, only returned below.
+            Command::InvalidShardingKey => unreachable!(),
         };
 
         match command {
             Command::SetShardingKey => {
-                // TODO: some error handling here
-                value = self
-                    .set_sharding_key(value.parse::<i64>().unwrap())
-                    .unwrap()
-                    .to_string();
+                // The regex admits any number of digits, a sharding key is a bigint.
+                match value.parse::<i64>() {
+                    Ok(sharding_key) => {
+                        value = self.set_sharding_key(sharding_key).unwrap().to_string();
+                    }
+                    Err(_) => return Some((Command::InvalidShardingKey, value)),
+                }
             }
 
             Command::SetShard => {
                 self.active_shard = match value.to_ascii_uppercase().as_ref() {
                     "ANY" => Some(rand::random::<usize>() % self.pool_settings.shards),
-                    _ => Some(value.parse::<usize>().unwrap()),
+                    // A number too large for usize is out of range for any pool,
+                    // the caller rejects it like every other unknown shard.
+                    _ => Some(value.parse::<usize>().unwrap_or(usize::MAX)),
                 };
             }
 
